@@ -211,8 +211,10 @@ package stateless
 //@ spec func validCfg(cfg *Config) bool = cfg.MaxPinQueueSize > 0 && cfg.ConcurrentPins > 0
 
 // "the default configuration is valid"
+//@ ghost var defaultsN int
 //@ func (cfg *Config) Default
 //@   property C15
+//@   counts defaultsN when true
 //@   ensures err == nil && validCfg(cfg) && cfg.MaxPinQueueSize == DefaultMaxPinQueueSize && cfg.ConcurrentPins == DefaultConcurrentPins
 //@   ensures forall o *Config :: o != cfg ==> *o == old(*o)
 //@   modifies heap(Config)
@@ -249,4 +251,10 @@ package stateless
 //@   property C18
 //@   opts own
 //@   ensures [success-means-shut-down] err == nil ==> spt.shutdown
+//@   modifies *
+
+//@ func (cfg *Config) LoadJSON
+//@   property C15
+//@   requires cfg != nil
+//@   at_call Config.applyJSONConfig assert [defaults-first] defaultsN == old(defaultsN) + 1
 //@   modifies *
